@@ -25,9 +25,11 @@ DRIVER = 'Drivers/C06.lean'
 DRIVER_MODULES = ['StarsimModel.Model.TimePar', 'StarsimModel.Model.Proto']
 RULE = ('(1) every ordered pair of the unit pool x seeded dt pairs through time_ratio; (2) seeded call sequences on real TimePar '
         'objects (class x scalar/array value x unit/parent/dt x ops), compared op by op with the Lean model (state after every op); '
-        '(3) TimePars of a probe module initialised by Module.init_time in generated sims. distinct = distinct canonical line '
+        '(3) TimePars of a probe module initialised by Module.init_time in generated sims; (4) histories of array-valued parameters '
+        '(link / re-link / set(v) / to / to_parent / scale), compared call by call with the array-identity model (Store/AOp). distinct = distinct canonical line '
         'sequence; non-trivial = a conversion with factor != 1 or an error branch was exercised')
-TRUSTED = ['IEEE-754 double arithmetic of CPython/NumPy and of Lean `Float` (same operation order as the source); libm/NumPy exp/log within 1 ulp',
+TRUSTED = ['identity of ndarray objects on the real side is observed with `is` / numpy.shares_memory on arrays the harness keeps alive (c06_round3.Labels)',
+           'IEEE-754 double arithmetic of CPython/NumPy and of Lean `Float` (same operation order as the source); libm/NumPy exp/log within 1 ulp',
            'decimal (50 digits) exp/ln as the reference for the transcendental identities in the oracle']
 ASSUMPTIONS = ['dt > 0 and factor != 0 in every compared case (the property quantifies over positive dt); NaN/inf values are outside the compared domain',
                'float results are compared with the exact model within 16 ulp relative (+4e-15 absolute for probabilities), per single operation: after every operation that feeds a computed value back into `v` the model is re-synchronised to the implementation state']
